@@ -335,6 +335,113 @@ pub fn run(eng: &mut Engine) {
         agree_strategy,
         check_agree,
     );
+    let n = eng.tier.pick(200_000, 3_000_000);
+    eng.generated(
+        PartCfg::new(
+            "sessions",
+            "real sessions of one small object (all schemes, 1-4 blocks equal and unequal, short last symbol, content encodings so that transfer length != content length, in-band / FDT-only FTI): (1) the partition a receiver derives from the in-band EXT_FTI and from the FDT (for RaptorQ/Raptor through Z) is the RFC 5052 partition of the sender's (L, E, B); (2) the sender's emitted (SBN, ESI) structure is that partition; (3) flute's receiver rebuilds the exact bytes with the FDT first and with the FDT last; non-trivial = >= 2 blocks or L mod E != 0; distinct by case",
+            n,
+        ),
+        || crate::chan::small_session_strategy(crate::chan::SmallOpts { max_symbols: 12, allow_cenc: true, allow_empty: true, allow_two_objects: false, ..Default::default() }).prop_map(|sess| SessCase { sess }).boxed(),
+        check_session,
+    );
+}
+
+// ------------------------------------------------------------------------------------------
+// end to end: what the sender announces, how it really cuts the object, and what flute's own
+// receiver derives from either announcement are one and the same RFC 5052 partition
+
+#[derive(Debug, Clone, Serialize, Deserialize)]
+pub struct SessCase {
+    pub sess: crate::chan::SessSpec,
+}
+
+pub fn check_session(c: &SessCase) -> CaseResult {
+    use crate::chan::*;
+    let mut info = CaseInfo::new();
+    let ls = build_session(&c.sess).map_err(|e| format!("HARNESS: cannot build the session: {}", e))?;
+    if ls.packets.is_empty() {
+        return Ok(CaseInfo::excluded("domain: empty session"));
+    }
+    for (oi, o) in ls.objs.iter().enumerate() {
+        let r = partition(o.transfer_len as u128, o.cfg_e as u128, o.cfg_b as u128).ok_or("reference: E or B is 0")?;
+        let kref: Vec<u32> = (0..r.n).map(|s| r.k(s) as u32).collect();
+        // (1) both announcements describe the reference partition of the configured (B, E) and the transfer length
+        for (what, w) in [("in-band EXT_FTI", &o.wire_fti), ("FDT", &o.wire_fdt)] {
+            if let Some(w) = w {
+                if w.l != o.transfer_len {
+                    return Err(format!("object {} (toi {}): the {} announces transfer length {}, the object has {}", oi, o.toi, what, w.l, o.transfer_len));
+                }
+                let p = w.partition().ok_or(format!("object {} (toi {}): the OTI announced by the {} cannot be partitioned: {:?}", oi, o.toi, what, w))?;
+                let k: Vec<u32> = (0..p.n).map(|s| p.k(s) as u32).collect();
+                if k != kref && o.transfer_len > 0 {
+                    return Err(format!(
+                        "object {} (toi {}, {:?}, transfer length {}, E={}, B={}): a receiver using the {} ({:?}) derives blocks of {:?} symbols, RFC 5052 for the sender's (L, E, B) gives {:?}",
+                        oi, o.toi, o.scheme, o.transfer_len, o.cfg_e, o.cfg_b, what, w, k, kref
+                    ));
+                }
+            }
+        }
+        // (2) the sender's real cut: in the first transfer every block sbn emits exactly the source ESIs 0..k_ref(sbn)
+        let mut seen: std::collections::BTreeMap<u32, std::collections::BTreeSet<u32>> = Default::default();
+        let mut max_sbn = None;
+        for k in &ls.kinds {
+            if let PktKind::Obj { obj, transfer: 0, sbn, esi, .. } = k {
+                if *obj == oi {
+                    seen.entry(*sbn).or_default().insert(*esi);
+                    max_sbn = Some(max_sbn.unwrap_or(0).max(*sbn));
+                }
+            }
+        }
+        if o.transfer_len > 0 {
+            if max_sbn.map(|m| m as u128 + 1) != Some(r.n) {
+                return Err(format!("object {} (toi {}): the sender emitted source blocks 0..={:?}, RFC 5052 gives {} blocks (L={}, E={}, B={})", oi, o.toi, max_sbn, r.n, o.transfer_len, o.cfg_e, o.cfg_b));
+            }
+            for (sbn, kk) in kref.iter().enumerate() {
+                let have = seen.get(&(sbn as u32)).cloned().unwrap_or_default();
+                if !(0..*kk).all(|e| have.contains(&e)) {
+                    return Err(format!("object {} (toi {}): block {} should hold {} source symbols (RFC 5052), the sender emitted ESIs {:?}", oi, o.toi, sbn, kk, have));
+                }
+            }
+        }
+        info.label_if(r.a_large != r.a_small, "unequal blocks");
+        info.label_if(o.wire_fti.is_some(), "in-band FTI");
+        info.label_if(c.sess.objs[oi].cenc != 0, "content encoding (transfer length != content length)");
+        info.label(format!("{:?}", o.scheme));
+    }
+    // (3) flute's own receiver, taking the OTI from the FDT (emission order) or from the in-band FTI /
+    // the cache (every object packet first, the FDT afterwards), rebuilds the exact bytes
+    let n = ls.packets.len();
+    let in_order: Vec<usize> = (0..n).collect();
+    let mut late_fdt: Vec<usize> = (0..n).filter(|i| matches!(ls.kinds[*i], PktKind::Obj { .. })).collect();
+    late_fdt.extend((0..n).filter(|i| !matches!(ls.kinds[*i], PktKind::Obj { .. })));
+    for (what, order) in [("in emission order", &in_order), ("with every object packet before the FDT", &late_fdt)] {
+        let rx = crate::drive::RxSpec { receive_once: true, md5_check: true, ..crate::drive::RxSpec::default_once() };
+        let d = deliver(&ls, order, &[], &rx, crate::monitor::Faults::none(), true)?;
+        for (oi, o) in ls.objs.iter().enumerate() {
+            // (how many copies is C01's business; here: delivered, every copy exact, no copy failed)
+            let mine: Vec<_> = d.writers_after_drop.iter().filter(|w| w.toi == o.toi).collect();
+            let done: Vec<_> = mine.iter().filter(|w| w.completed()).collect();
+            if done.is_empty() || done.iter().any(|w| w.data != o.bytes) || mine.iter().any(|w| w.failed()) {
+                return Err(format!(
+                    "object {} (toi {}, {:?}, transfer length {}, E={}, B={}, announced by FTI {:?} / FDT {:?}): all packets delivered {} but {} exact copies completed; writers {:?}",
+                    oi,
+                    o.toi,
+                    o.scheme,
+                    o.transfer_len,
+                    o.cfg_e,
+                    o.cfg_b,
+                    o.wire_fti,
+                    o.wire_fdt,
+                    what,
+                    done.iter().filter(|w| w.data == o.bytes).count(),
+                    d.writers_after_drop.iter().filter(|w| w.toi == o.toi).map(|w| w.trace()).collect::<Vec<_>>()
+                ));
+            }
+        }
+    }
+    info.nt(ls.objs.iter().any(|o| o.k.len() >= 2 || o.transfer_len % o.cfg_e.max(1) as u64 != 0));
+    Ok(info)
 }
 
 pub fn replay(part: &str, case: &Value) -> Option<CaseResult> {
@@ -354,6 +461,7 @@ pub fn replay(part: &str, case: &Value) -> Option<CaseResult> {
             let a: Agree = serde_json::from_value(case.clone()).ok()?;
             Some(check_agree(&a))
         }
+        "sessions" => Some(check_session(&serde_json::from_value(case.clone()).ok()?)),
         _ => None,
     }
 }
